@@ -33,6 +33,7 @@ type Ctx struct {
 	cha           *callgraph.Graph
 	fnInfo        map[*ssa.Function]*fnInfo
 	fileShape     *fileReaderShape
+	maskSh        *maskShape
 	callersOf     map[*ssa.Function][]ssa.CallInstruction
 	allFuncs      map[*ssa.Function]bool
 	r             *roles
